@@ -145,6 +145,73 @@ def opNames : List Op → List Name
 def listers (lat : Latest) (names : List Name) (svc : SvcName) : List SvcRoute :=
   names.filterMap (fun n => specSvcRoute lat n svc)
 
+/-! ### keeping the function-valued state shallow
+
+  The models represent Go maps as functions; a history of k operations yields k nested closures and
+  some of them consult the previous map twice per lookup (`match rt m with | none => rt | …`), which
+  costs 2^k at run time.  After every step the driver therefore tabulates each map on the finite key
+  universe of the line and continues with `ofTbl tbl f`, which is *the same function*
+  (`ofTbl_memoTbl`), just evaluated eagerly. -/
+
+def memoTbl {κ α : Type} (keys : List κ) (f : κ → α) : List (κ × α) := keys.map (fun k => (k, f k))
+
+def ofTbl {κ α : Type} [DecidableEq κ] (tbl : List (κ × α)) (f : κ → α) : κ → α := fun x =>
+  match tbl.find? (fun p => decide (p.1 = x)) with
+  | some p => p.2
+  | none => f x
+
+theorem ofTbl_memoTbl {κ α : Type} [DecidableEq κ] (keys : List κ) (f : κ → α) : ofTbl (memoTbl keys f) f = f := by
+  funext x
+  simp only [ofTbl]
+  cases h : (memoTbl keys f).find? (fun p => decide (p.1 = x)) with
+  | none => rfl
+  | some p =>
+    have h1 := List.mem_of_find?_eq_some h
+    have h2 := List.find?_some h
+    simp only [memoTbl, List.mem_map] at h1
+    obtain ⟨k, _, hk⟩ := h1
+    have h3 : p.1 = x := by simpa using h2
+    rw [← hk] at h3 ⊢
+    simp only at h3 ⊢
+    rw [h3]
+
+structure Keys where
+  names : List Name
+  svcs : List SvcName
+  meths : List HMethod
+
+def shallowSvc (k : Keys) (s : SvcState) : SvcState :=
+  let w := memoTbl k.names s.watching
+  let r := memoTbl k.svcs s.routes
+  let c := memoTbl k.names s.svcRoutes
+  { watching := ofTbl w s.watching, routes := ofTbl r s.routes, svcRoutes := ofTbl c s.svcRoutes }
+
+def shallowPat (k : Keys) (s : PatState) : PatState :=
+  let w := memoTbl k.names s.watching
+  let r := memoTbl k.meths s.routes
+  let l := memoTbl k.names s.links
+  let c := memoTbl k.meths s.static
+  { watching := ofTbl w s.watching, routes := ofTbl r s.routes, links := ofTbl l s.links,
+    static := ofTbl c s.static, fault := s.fault }
+
+/-- boxed so that the table is built when the box is, not at every lookup (a definition whose result
+    type is a function is compiled with the lookup key as an extra parameter) -/
+structure LatBox where
+  f : Latest
+
+def shallowLat (k : Keys) (l : Latest) : LatBox :=
+  let t := memoTbl k.names l
+  { f := ofTbl t l }
+
+theorem shallowSvc_eq (k : Keys) (s : SvcState) : shallowSvc k s = s := by
+  simp [shallowSvc, ofTbl_memoTbl]
+
+theorem shallowPat_eq (k : Keys) (s : PatState) : shallowPat k s = s := by
+  simp [shallowPat, ofTbl_memoTbl]
+
+theorem shallowLat_eq (k : Keys) (l : Latest) : (shallowLat k l).f = l := by
+  simp [shallowLat, ofTbl_memoTbl]
+
 structure JState where
   pat : PatState := PatState.init
   svc : SvcState := SvcState.init
@@ -197,13 +264,15 @@ def zip3 {α β γ : Type} : List α → List β → List γ → List (α × β 
   | _, _, _ => []
 
 /-- judge one step: `tok` is the implementation's step token -/
-def judgeStep (pr : Probes) (names : List Name) (k : Nat) (op : Op) (tok : String) (st : JState) (v : Verdict) :
+def judgeStep (pr : Probes) (keys : Keys) (names : List Name) (k : Nat) (op : Op) (tok : String) (st : JState) (v : Verdict) :
     JState × Verdict := Id.run do
   let pool : Name → Bool := fun n => pr.pool.contains n
-  let (pat', pres) := st.pat.step validSimple op
-  let (svc', sres) := st.svc.step op
+  let (pat0, pres) := st.pat.step validSimple op
+  let (svc0, sres) := st.svc.step op
+  let pat' := shallowPat keys pat0
+  let svc' := shallowSvc keys svc0
   let latBefore := st.lat
-  let lat' := st.lat.step op
+  let lat' := (shallowLat keys (st.lat.step op)).f
   let mut v := v
   let parts := tok.splitOn ";"
   if parts.length ≠ 6 then
@@ -327,11 +396,11 @@ def judgeStep (pr : Probes) (names : List Name) (k : Nat) (op : Op) (tok : Strin
     idx := idx + 1
   return ({ st' with prevOwners := owners }, v)
 
-def judgeSteps (pr : Probes) (names : List Name) : Nat → List Op → List String → JState → Verdict → Verdict
+def judgeSteps (pr : Probes) (keys : Keys) (names : List Name) : Nat → List Op → List String → JState → Verdict → Verdict
   | _, [], _, _, v => v
   | k, op :: ops, tok :: toks, st, v =>
-    let (st', v') := judgeStep pr names k op tok st v
-    judgeSteps pr names (k + 1) ops toks st' v'
+    let (st', v') := judgeStep pr keys names k op tok st v
+    judgeSteps pr keys names (k + 1) ops toks st' v'
   | k, _ :: _, [], _, v => v.addDiff s!"step {k}: missing step token"
 
 def parseOps : Nat → List String → Option (List Op)
@@ -351,7 +420,12 @@ def judgeHist (inp out : List String) : String :=
       if out.length ≠ ops.length then "BAD step count"
       else
         let names := (opNames ops).eraseDups
-        let v := judgeSteps pr names 0 ops out {} {}
+        let descs := ops.filterMap (fun o => match o with | .update _ d => some d | _ => none)
+        let svcKeys := (descs.flatMap (fun d => d.services.map (·.name)) ++ (probeSvcs pr).filterMap id).eraseDups
+        let methKeys := (POST :: descs.flatMap (fun d => d.services.flatMap (fun s => s.methods.flatMap (fun m => m.bindings.map (·.httpMethod))))
+          ++ pr.p.map (·.1)).eraseDups
+        let keys : Keys := ⟨names, svcKeys, methKeys⟩
+        let v := judgeSteps pr keys names 0 ops out {} {}
         match v.viol, v.diff with
         | some m, _ => s!"VIOL {m}"
         | none, some m => s!"DIFF model: {m}"
